@@ -15,6 +15,9 @@ C04_fin1 == [cyclic |-> 4, annTTL |-> 12, collect |-> 1, reps |-> 1, base |-> 1,
 C04_init == [cyclic |-> 3, annTTL |-> 9, collect |-> 0, initMin |-> 2, initMax |-> 2, reps |-> 2, base |-> 1, subTTL |-> 9, refresh |-> 3] @@ C04_Base
 C04_inf  == [cyclic |-> 4, annTTL |-> FOREVER, collect |-> 0, subTTL |-> FOREVER, refresh |-> 0] @@ C04_Base
 C04_inf1 == [cyclic |-> 4, annTTL |-> FOREVER, collect |-> 1, subTTL |-> FOREVER, refresh |-> 0] @@ C04_Base
+\* both stacks have been up for long: session counters past their first wrap (reboot flag cleared), about to wrap again
+C04_wrap == [sess0 |-> <<FALSE, 65532>>] @@ C04_fin
+M_wrap == [bound |-> 16, needAlive |-> FALSE]
 M_fin  == [bound |-> 16, needAlive |-> FALSE]
 M_fin1 == [bound |-> 18, needAlive |-> FALSE]
 M_init == [bound |-> 14, needAlive |-> FALSE]
